@@ -346,7 +346,7 @@ index-read-conc store-kind-conc argcount-conc argkind-conc nil-deref-conc nil-fu
 panic-method-conc panic-three-conc unexp-return unexp-return-local unexp-arg unexp-set unexp-conc panic-three undef-root-3 local-root-3 local-root-3-if""".split()
 
 
-BENIGN_CODES = ["grow-range", "grow-range-map", "long-for", "nested-for", "range-in-for"]
+BENIGN_CODES = ["grow-range", "grow-range-map", "long-for", "nested-for", "range-in-for", "break-inner"]
 
 
 @prop("C09")
